@@ -81,6 +81,13 @@ def make_cases(rng, tier, diff_here):
         cases.append(base(e, rules, n=1, m=1, names=["ra", "zz"]))          # unknown name
         cases.append(base(e, rules, n=2, m=1, names=["ra", "rb"]))          # wrong count
         cases.append(base(e, rules, n=1, m=2, names=["zz", "ra", "rb"]))    # unknown first
+        # as many names as there are rules, but not a permutation of them: an unknown name, a repeated name
+        for k in (3, 4):
+            rules = rules_with_failing(k, ())
+            all_names = [r["name"] for r in rules]
+            for (n, m) in ((1, k - 1), (k - 1, 1)):
+                for bad in (all_names[:-1] + ["zz"], ["zz"] + all_names[1:], all_names[:-1] + [all_names[0]], [all_names[1]] + all_names[1:]):
+                    cases.append(base(e, rules, b=rng.random() < 0.5, n=n, m=m, names=bad))
     # random
     n_rand = 150 if tier == "quick" else 4000
     pool = ENTRIES_P + diff_here * 9
@@ -90,7 +97,7 @@ def make_cases(rng, tier, diff_here):
 
 
 RULE = ("systematic: rule sets of size 2-4 (thorough 2-6) with saliences 9,8,.. x every split n+m<=size x failing subsets of size <=1 (thorough <=2) x both flags x one held rule, "
-        "for the three N-M models; mix / inverse-mix with each failing subset and the first / an early / the last rule held; invalid (n,m); selected N-M with permuted, unknown and miscounted names; "
+        "for the three N-M models; mix / inverse-mix with each failing subset and the first / an early / the last rule held; invalid (n,m); selected N-M with permuted, unknown, repeated and miscounted names (also name lists exactly as long as the rule set that are not a permutation of it); "
         "random: 150 (thorough 4000) calls over the 10 entry points with ties, negative saliences and random holds.")
 
 
